@@ -29,6 +29,10 @@ class Opts:
         self.__dict__.update(kw)
 
 
+class NoDefault(Exception):
+    pass
+
+
 class SchemaGen:
     def __init__(self, rng, opts=None):
         self.r = rng
@@ -36,6 +40,7 @@ class SchemaGen:
         self.n = 0
         self.defined = []     # (full name, kind)
         self.open_records = []  # full names of records being defined (for recursion)
+        self.defs = {}        # full name -> (json definition, namespace context inside it)
 
     def fresh(self, prefix):
         self.n += 1
@@ -195,7 +200,9 @@ class SchemaGen:
         if self.o.defaults and r.random() < 0.3:
             obj['default'] = r.choice(syms)
         self.deco(obj)
-        self.defined.append((self.full(frag, ens if 'namespace' in frag or '.' in frag['name'] else ns), 'enum'))
+        full = self.full(frag, ens if 'namespace' in frag or '.' in frag['name'] else ns)
+        self.defined.append((full, 'enum'))
+        self.defs[full] = (obj, None)
         return obj
 
     def gen_fixed(self, ns):
@@ -203,7 +210,9 @@ class SchemaGen:
         frag, fns = self.name_obj('Fx', ns)
         obj = dict(type='fixed', size=r.choice([0, 1, 2, 7, 16, 33]), **frag)
         self.deco(obj)
-        self.defined.append((self.full(frag, fns if 'namespace' in frag or '.' in frag['name'] else ns), 'fixed'))
+        full = self.full(frag, fns if 'namespace' in frag or '.' in frag['name'] else ns)
+        self.defined.append((full, 'fixed'))
+        self.defs[full] = (obj, None)
         return obj
 
     def gen_record(self, depth, ns):
@@ -226,12 +235,66 @@ class SchemaGen:
                     f['order'] = r.choice(['ascending', 'descending', 'ignore'])
                 if r.random() < 0.3:
                     f[r.choice(['fattr', 'x-y'])] = r.choice([0, 'z', [None], {'a': 'b'}])
+            if self.o.defaults and r.random() < 0.5:
+                try:
+                    f['default'] = self.default_for(ft, rns, 0)
+                except NoDefault:
+                    pass
             fields.append(f)
         self.open_records.pop()
         obj = dict(type='record', fields=fields, **frag)
         self.deco(obj)
         self.defined.append((full, 'record'))
+        self.defs[full] = (obj, rns)
         return obj
+
+    def default_for(self, t, ns, depth):
+        """a JSON default conforming to type json t (union: first branch), per the spec's table"""
+        r = self.r
+        if depth > 4:
+            raise NoDefault()
+        if isinstance(t, list):
+            return self.default_for(t[0], ns, depth + 1)
+        if isinstance(t, str):
+            if t in PRIMS:
+                return self.default_prim(t)
+            full = t if '.' in t else ((ns + '.' + t) if ns else t)
+            if full not in self.defs:
+                raise NoDefault()      # reference to a record still being defined (recursion)
+            d, dns = self.defs[full]
+            return self.default_named(d, dns, depth)
+        if 'logicalType' in t:
+            raise NoDefault()
+        tt = t['type']
+        if tt in ('record', 'enum', 'fixed'):
+            full = self.full(t, ns if not ('namespace' in t or '.' in t['name']) else (t.get('namespace') or None))
+            dns = self.defs.get(full, (None, ns))[1]
+            return self.default_named(t, dns, depth)
+        if tt == 'array':
+            return [] if r.random() < 0.5 else [self.default_for(t['items'], ns, depth + 1) for _ in range(r.randint(1, 2))]
+        if tt == 'map':
+            return {} if r.random() < 0.5 else {'k%d' % i: self.default_for(t['values'], ns, depth + 1) for i in range(r.randint(1, 2))}
+        if isinstance(tt, (list, dict)):
+            return self.default_for(tt, ns, depth + 1)
+        return self.default_for(tt, ns, depth + 1)
+
+    def default_prim(self, p):
+        r = self.r
+        return {'null': None, 'boolean': r.random() < 0.5, 'int': r.choice([0, -1, 42, 2 ** 31 - 1, -2 ** 31]),
+                'long': r.choice([0, -1, 2 ** 40, 2 ** 53, -2 ** 62]), 'float': r.choice([0.0, 1.5, -2.25, 1]),
+                'double': r.choice([0.0, 1.5, -2.25, 1e300, 3]), 'bytes': r.choice(['', 'abc', '\u00ff\u0000a']),
+                'string': r.choice(['', 'dflt', 'q"\\é'])}[p]
+
+    def default_named(self, d, dns, depth):
+        tt = d['type']
+        if tt == 'enum':
+            return self.r.choice(d['symbols'])
+        if tt == 'fixed':
+            return ''.join(self.r.choice(['a', '\u00ff', '\u0000', 'Z']) for _ in range(d['size']))
+        out = {}
+        for f in d['fields']:
+            out[f['name']] = self.default_for(f['type'], dns, depth + 1)
+        return out
 
     def gen_union(self, depth, ns):
         r = self.r
